@@ -417,7 +417,7 @@ def sensitivity(prop, res):
                 env = dict(os.environ)
                 env["VERIF_REPO"] = repo
                 env["VERIF_OUT"] = os.path.join(d, "out")
-                p = subprocess.run([os.path.join(VERIF, "check"), prop, "--tier", "quick", "--configs", "all"], env=env,
+                p = subprocess.run([os.path.join(VERIF, "check"), prop, "--tier", "quick", "--configs", "default,all"], env=env,
                                    stdout=subprocess.PIPE, stderr=subprocess.STDOUT, text=True)
                 keys = []
                 rd = os.path.join(d, "out", "reports", prop)
